@@ -10,7 +10,7 @@ RULE = (
     "distinct = hash of the configuration; trivial = no option restricts anything"
 )
 ASSUMPTIONS = ["filter_ and stop are pure functions of the node (the library may evaluate stop more than once per node)"]
-GATES = ["mon.C06.sequence", "C06.stop_on_start", "C06.filtered_with_visible_children", "C06.stop_below_filtered", "C06.empty_group", "C06.maxlevel_le_0", "C06.maxlevel_cuts", "C06.predicate_objects_reused"]
+GATES = ["mon.C06.sequence", "C06.stop_on_start", "C06.filtered_with_visible_children", "C06.stop_below_filtered", "C06.empty_group", "C06.maxlevel_le_0", "C06.maxlevel_cuts", "C06.predicate_objects_reused", "C06.predicate_shape.1", "C06.predicate_shape.2", "C06.predicate_shape.3", "C06.predicate_shape.4"]
 
 
 def plan(tier, seed, jobs):
@@ -67,10 +67,12 @@ def check_config(ctx, nodes, idmap, tr, par, stop, hidden, maxlevel, case, use_n
         # long-lived predicate objects whose answers follow the current sets
         kw["stop"], kw["filter_"] = fns
     else:
+        shape = (len(stop) + 2 * len(hidden) + s + (maxlevel or 0)) % 5
+        ctx.count("C06.predicate_shape.%d" % shape)
         if not (use_none and not stop):
-            kw["stop"] = lambda n: idmap[id(n)] in stop
+            kw["stop"] = predicate(shape, lambda n: idmap[id(n)] in stop)
         if not (use_none and not hidden):
-            kw["filter_"] = lambda n: idmap[id(n)] not in hidden
+            kw["filter_"] = predicate((shape + 1) % 5, lambda n: idmap[id(n)] not in hidden)
     if not (use_none and maxlevel is None):
         kw["maxlevel"] = maxlevel
     ok = True
@@ -87,6 +89,32 @@ def check_config(ctx, nodes, idmap, tr, par, stop, hidden, maxlevel, case, use_n
                           expected=exp[nm], observed=obs)
             ok = False
     return ok
+
+
+class _CallableObject:
+    def __init__(self, fn):
+        self.fn = fn
+
+    def __call__(self, node):
+        return self.fn(node)
+
+    def method(self, node):
+        return self.fn(node)
+
+
+def predicate(shape, fn):
+    """The same one-argument predicate in the spellings programs use."""
+    import functools
+
+    if shape == 1:
+        return lambda n, fn=fn: fn(n)  # the loop-closure idiom: a second parameter with a default
+    if shape == 2:
+        return functools.partial(lambda fn, n: fn(n), fn)
+    if shape == 3:
+        return _CallableObject(fn)
+    if shape == 4:
+        return _CallableObject(fn).method
+    return fn
 
 
 def run(ctx):
